@@ -439,6 +439,38 @@ func Run(r *mc.Run) {
 		}
 		seqs = append(seqs, EncIn{Paras: ps, Calls: sp})
 	}
+	// large: 13..257 paragraphs through one encoder (one call each / one slice / slices of 16), paragraphs of up to 300
+	// fields, values of up to 1000 lines
+	for _, n := range []int{13, 16, 17, 64, 65, 100, 257} {
+		var ps []In
+		for i := 0; i < n; i++ {
+			ps = append(ps, reps[(i*5+1)%len(reps)])
+		}
+		calls16 := []int{}
+		for left := n; left > 0; left -= 16 {
+			if left >= 16 {
+				calls16 = append(calls16, 16)
+			} else if left == 1 {
+				calls16 = append(calls16, 1)
+			} else {
+				calls16 = append(calls16, left)
+			}
+		}
+		seqs = append(seqs, EncIn{Paras: ps}, EncIn{Paras: ps, Slice: true}, EncIn{Paras: ps, Calls: calls16})
+		var names, vals []string
+		for i := 0; i < n && i < 300; i++ {
+			names = append(names, fmt.Sprintf("Field-%d", i))
+			vals = append(vals, []string{"v", "", "one\ntwo", " ind\nx\n", "a\n\nb\n"}[i%5])
+		}
+		big := In{Names: names, Values: vals}
+		seqs = append(seqs, EncIn{Paras: []In{big, reps[0], big}})
+		lines := make([]string, n*4)
+		for i := range lines {
+			lines[i] = []string{"line", "", " indented", "#c", "k: v"}[i%5]
+		}
+		lines[0] = "first"
+		seqs = append(seqs, EncIn{Paras: []In{{Names: []string{"Description", "After"}, Values: []string{strings.Join(lines, "\n"), "x"}}}})
+	}
 	r.Scenario("encoder-sequences", map[string]interface{}{"representative_paragraphs": len(reps), "max_calls": 3, "mixed_struct_and_slice_call_splits": len(splits), "sequences": len(seqs)}, 16, func(sh int, st *mc.Stats) bool {
 		for i := sh; i < len(seqs); i += 16 {
 			st.Evals++
